@@ -307,8 +307,11 @@ func execMutCase(c *Sx, env *execEnv) (*Sx, []Violation) {
 		_, _, e := connlist.NewConnlistAnalyzer(connlist.WithMuteErrsAndWarns()).ConnlistFromDirPath(dirM)
 		env.count("mut-list:" + map[bool]string{true: "ok", false: "err"}[e == nil])
 		// the analysis is IPv4 only: an ipBlock with an IPv6 CIDR must be refused, never read as some IPv4 range (C01)
+		// judged only when this is the one change made to the input and it really is in the rendered file (another mutation
+		// may have turned the policy into a malformed document, which is skipped)
+		rendered, _ := os.ReadFile(filepath.Join(dirM, "f00.yaml"))
 		for _, m := range args[2:] {
-			if m.Head() == "m" && len(m.L) >= 4 && m.L[3].A == "ipv6cidr" && e == nil {
+			if len(args[2:]) == 1 && strings.Contains(string(rendered), "fd00::/8") && m.Head() == "m" && len(m.L) >= 4 && m.L[3].A == "ipv6cidr" && e == nil {
 				semViols = append(semViols, Violation{Prop: "C01", Kind: "ipv6-cidr-read-as-ipv4", Detail: "an ipBlock holds the IPv6 CIDR fd00::/8 (" + m.L[2].A + ") and list returns a report instead of an error", Case: c.String()})
 			}
 		}
